@@ -184,3 +184,33 @@ func HarnessC11_LateHook() {
 	vfAssert(len(late) == 1 && late[0] == nr, "late hook: only the later message, once")
 	vfReach("end")
 }
+
+// environment-change members with empty and non-empty values: each member is
+// reported with its own old and new value
+func HarnessC11_EnvMembers() {
+	vfLoopBound(80)
+	tds, _ := hNewConn(512)
+	ch := hNewChannel(tds, 0)
+	var log []c11EnvLog
+	ch.RegisterEnvChangeHooks(func(t EnvChangeType, o, n string) { log = append(log, c11EnvLog{t, o, n}) })
+	k := vfPick("members", 1, 3)
+	var ms []hEnvMember
+	for j := 0; j < k; j++ {
+		typ := vfU8("envtype")
+		vfAssume(typ != byte(TDS_ENV_PACKSIZE))
+		ms = append(ms, hEnvMember{typ: typ, new: vfString("envnew", vfPick("newlen", 0, 2)), old: vfString("envold", vfPick("oldlen", 0, 2))})
+	}
+	r := &hResp{}
+	r.envchange(ms...)
+	r.done(TDS_DONE, 0, 0, 0)
+	hDeliver(ch, r.b, c03Cut())
+	vfAssert(len(log) == k, "every member reported exactly once")
+	if len(log) == k {
+		for j := range ms {
+			vfAssert(byte(log[j].typ) == ms[j].typ && log[j].new == ms[j].new && log[j].old == ms[j].old, "member reported with its own type, old and new value")
+		}
+	}
+	pkgs, errs := hDrain(ch)
+	vfAssert(len(errs) == 0 && len(pkgs) == 1, "only the final DONE is delivered")
+	vfReach("end")
+}
